@@ -129,6 +129,14 @@ func deSerializeMacaroon(urlSafeEncode string) (macaroon.Macaroon, error) {
 		return mac, err
 	}
 
-	err = mac.UnmarshalBinary(bin)
-	return mac, err
+	if err = mac.UnmarshalBinary(bin); err != nil {
+		return mac, err
+	}
+	// The text must be the serialisation of the macaroon it decodes to. The base64 decoder skips
+	// line breaks and the binary decoder ignores bytes behind the macaroon; such a text is an
+	// altered token although the macaroon in it is intact.
+	if canonical, err := serializeMacaroon(mac); err != nil || canonical != urlSafeEncode {
+		return mac, errors.New("token is not the serialisation of its macaroon")
+	}
+	return mac, nil
 }
